@@ -1058,6 +1058,7 @@ func checkC15(c *Ctx) {
 	// the footer schema parquetgen -parquet reads: group child counts are per group
 	laFooterMeta(c, "LA-footer", map[string]bool{"totals": true})
 	laStructs(c, "LA-structs")
+	laLeafKind(c, "LA-leafkind")
 	laCells(c, "LA-cells")
 	laCLI(c, "LA-cli")
 	r.floor("LA-types/table-entries", 6, "BOOLEAN, INT32, INT64, FLOAT, DOUBLE, BYTE_ARRAY")
